@@ -156,6 +156,8 @@ def controlled_case(case):
 
 
 FACT = {"GPi": (1, lambda: __import__("orquestra.quantum.circuits", fromlist=["GPi"]).GPi), "X": (0, lambda: __import__("orquestra.quantum.circuits", fromlist=["X"]).X), "RX": (1, lambda: __import__("orquestra.quantum.circuits", fromlist=["RX"]).RX),
+        # a single-qubit gate FACTORY with 0 parameters: it is called with an empty parameter row per qubit (rows = [(), (), ...])
+        "custom0": (0, lambda: __import__("mc.gates", fromlist=["custom_definition"]).custom_definition("custom1")),
         "custom1p": (2, lambda: __import__("mc.gates", fromlist=["custom_definition"]).custom_definition("custom1p")), "U3": (3, lambda: __import__("orquestra.quantum.circuits", fromlist=["U3"]).U3)}
 
 
@@ -182,15 +184,17 @@ def layer_case(case):
     f = get()
     n = case["n"]
     rows = rows_for(npar, n, case.get("rows", "default")) if npar else None
+    if case["f"] == "custom0":
+        rows = [() for _ in range(n)] if case.get("rows") != "all-zero" else np.zeros((n, 0))
     rows_before = list(rows) if rows is not None else None
     c = create_layer_of_gates(n, f, rows)
     if c.n_qubits != n and n > 0:
         return {"ok": False, "msg": "layer over %d qubits has width %d" % (n, c.n_qubits), "sig": "layer:width"}
     got = [op_view(o) for o in c.operations]
-    name = f.name if npar == 0 else f(*rows_for(npar, 1)[0]).name
-    exp = [(name, tuple(float(x) for x in (rows[i] if rows else ())), (i,)) for i in range(n)]
+    name = f().name if case["f"] == "custom0" else f.name if npar == 0 else f(*rows_for(npar, 1)[0]).name
+    exp = [(name, tuple(float(x) for x in (rows[i] if rows is not None and len(rows) else ())), (i,)) for i in range(n)]
     ok = sorted(got, key=lambda v: v[2]) == exp and len(got) == n
-    r = {"ok": bool(ok and rows == rows_before), "nt": n >= 2 and npar >= 1, "out": "p%d" % npar}
+    r = {"ok": bool(ok and (rows is None or [tuple(x) for x in rows] == [tuple(x) for x in rows_before])), "nt": n >= 2 and npar >= 1, "out": "p%d" % npar}
     if not r["ok"]:
         r.update(msg="layer of %s over %d qubits: not exactly one gate per qubit with the i-th row on qubit i" % (case["f"], n), expected=str(exp), observed=str(got), sig="layer")
     return r
@@ -207,18 +211,20 @@ def apply_case(case):
     qs = case["qs"]
     distinct = sorted(set(qs))
     rows = rows_for(npar, len(distinct), case.get("rows", "default")) if npar else None
+    if case["f"] == "custom0":
+        rows = [() for _ in distinct]
     import warnings
     with warnings.catch_warnings():
         warnings.simplefilter("ignore")
         for container in (list, tuple):
-            out = C.apply_gate_to_qubits(base, container(qs), f, list(rows) if rows else None)
+            out = C.apply_gate_to_qubits(base, container(qs), f, list(rows) if rows is not None else None)
             if csnap(base) != before:
                 return {"ok": False, "msg": "apply_gate_to_qubits modified the base circuit", "sig": "apply:mutated"}
             nb = len(base.operations)
             if [o for o in out.operations[:nb]] != list(base.operations):
                 return {"ok": False, "msg": "existing operations are not left in place as a prefix", "sig": "apply:prefix"}
             added = [op_view(o) for o in out.operations[nb:]]
-            name = f.name if npar == 0 else f(*rows_for(npar, 1)[0]).name
+            name = f().name if case["f"] == "custom0" else f.name if npar == 0 else f(*rows_for(npar, 1)[0]).name
             bad = None
             if any(a[0] != name or len(a[2]) != 1 for a in added):
                 bad = "added operations are not the single-qubit gate"
